@@ -195,7 +195,7 @@ if __name__ == "__main__":
     elif cmd == "check":
         check(sys.argv[2], sys.argv[3:] or ALL)
     elif cmd == "recheck":
-        sids = [a for a in sys.argv[2:] if not a.startswith("--")] or sorted(d for d in os.listdir(os.path.join(V, "seeded")) if os.path.isdir(os.path.join(V, "seeded", d)))
+        sids = [a for a in sys.argv[2:] if not a.startswith("--")] or sorted(d for d in os.listdir(os.path.join(V, "seeded")) if os.path.exists(os.path.join(V, "seeded", d, "meta.json")))
         recheck(sids, ALL)
     elif cmd == "index":
         index()
